@@ -667,21 +667,22 @@ def native(seed=0):
         layer = tdgl.Layer(coherence_length=0.5, london_lambda=2, thickness=0.1, gamma=1, z0=0.75)
         dev = tdgl.Device("d", layer=layer, film=tdgl.Polygon("film", points=box(3, 2)), length_units="um")
         dev.make_mesh(max_edge_length=0.5, smooth=3)
-        with tempfile.TemporaryDirectory() as td:
-            sol = tdgl.solve(dev, tdgl.SolverOptions(solve_time=0.5, output_file=os.path.join(td, "f.h5"), save_every=50, field_units="mT", current_units="uA"), applied_vector_potential=0.4)
-            P = np.array([[0.3, 0.2], [-0.8, 0.5], [2.0, -1.0]])
-            zs = 2.0
-            for vec in (True, False):
-                got = sol.field_at_position(P, zs=zs, vector=vec, units="tesla", with_units=False)
-                ref = 0
-                for nm in ("supercurrent_density", "normal_current_density"):
-                    J = getattr(sol, nm).to("uA / um").magnitude
-                    ref = ref + em.biot_savart_2d(P[:, 0], P[:, 1], zs * np.ones(len(P)), positions=sol.device.points, current_densities=J, z0=0.75,
-                                                  areas=sol.device.mesh.areas * sol.device.coherence_length.magnitude ** 2, length_units="um", current_units="uA", vector=vec).to("tesla").magnitude
-                n += 1
-                if not np.allclose(np.asarray(got), ref, rtol=1e-9, atol=1e-30):
-                    bad.append(dict(what="Solution.field_at_position of a film at height z0 = 0.75 differs from the Biot-Savart kernel evaluated for a sheet at that height",
-                                    vector=vec, max_rel_dev=float(np.abs(np.asarray(got) - ref).max() / (np.abs(ref).max() + 1e-300))))
+        for cu_ in ("uA", "mA"):
+            with tempfile.TemporaryDirectory() as td:
+                sol = tdgl.solve(dev, tdgl.SolverOptions(solve_time=0.5, output_file=os.path.join(td, f"f{cu_}.h5"), save_every=50, field_units="mT", current_units=cu_), applied_vector_potential=0.4)
+                P = np.array([[0.3, 0.2], [-0.8, 0.5], [2.0, -1.0]])
+                zs = 2.0
+                for vec in (True, False):
+                    got = sol.field_at_position(P, zs=zs, vector=vec, units="tesla", with_units=False)
+                    ref = 0
+                    for nm in ("supercurrent_density", "normal_current_density"):
+                        J = getattr(sol, nm).to(f"{cu_} / um").magnitude
+                        ref = ref + em.biot_savart_2d(P[:, 0], P[:, 1], zs * np.ones(len(P)), positions=sol.device.points, current_densities=J, z0=0.75,
+                                                      areas=sol.device.mesh.areas * sol.device.coherence_length.magnitude ** 2, length_units="um", current_units=cu_, vector=vec).to("tesla").magnitude
+                    n += 1
+                    if not np.allclose(np.asarray(got), ref, rtol=1e-9, atol=1e-30):
+                        bad.append(dict(what="Solution.field_at_position of a film at height z0 = 0.75 differs from the Biot-Savart kernel evaluated for a sheet at that height",
+                                        vector=vec, current_units=cu_, max_rel_dev=float(np.abs(np.asarray(got) - ref).max() / (np.abs(ref).max() + 1e-300))))
         logging.disable(logging.NOTSET)
     except Exception as e:  # noqa
         bad.append(dict(what=f"field_at_position cross-check raised {type(e).__name__}: {str(e)[:120]}"))
